@@ -72,12 +72,31 @@ Definition adler (s : str) : N * N :=
 Definition show_adler (s : str) : str := let ab := adler s in show_n (fst ab) ++ s2l "." ++ show_n (snd ab).
 
 (** ** parsing *)
+(** (PTBase.Wire.unhex works on unary numbers and PyStr.split_c reverses with the quadratic [List.rev]: on the lines of
+    the 200-block cases that dominated the run of the driver; same functions, binary numbers and [rev_append]) *)
+Definition hexval_n (c : ascii) : N :=
+  let n := N_of_ascii c in
+  if (48 <=? n)%N && (n <=? 57)%N then (n - 48)%N
+  else if (97 <=? n)%N && (n <=? 102)%N then (n - 87)%N
+  else if (65 <=? n)%N && (n <=? 70)%N then (n - 55)%N else 0%N.
+Fixpoint unhexn (s : str) : str :=
+  match s with
+  | a :: b :: r => ascii_of_N (16 * hexval_n a + hexval_n b) :: unhexn r
+  | _ => []
+  end.
+Fixpoint split_acc (ch : ascii) (cur : str) (s : str) : list str :=
+  match s with
+  | [] => [rev_append cur []]
+  | c :: r => if ceqb c ch then rev_append cur [] :: split_acc ch [] r else split_acc ch (c :: cur) r
+  end.
+Definition splitc (ch : ascii) (s : str) : list str := split_acc ch [] s.
+Definition tab_c : ascii := "009".
 Fixpoint pairs (l : list str) : list (str * str) :=
   match l with a :: b :: r => (a, b) :: pairs r | _ => [] end.
 Definition comma_c : ascii := ",".
 Definition semi_c : ascii := ";".
 Definition names_of (l : list str) : list str :=
-  match l with [[]] => [] | _ => map unhex l end.
+  match l with [[]] => [] | _ => map unhexn l end.
 (** naming functions of minc: the defaults of t2grids.py and the variants the harness passes *)
 Definition mb_default (n : str) (m : nat) : str := let l := show_nat m in l ++ skipn (length l) n.
 Definition mb_z (n : str) (m : nat) : str := firstn 5 (show_nat m ++ s2l "zz" ++ skipn 3 n).       (* ('%dzz%s' % (level, name[3:]))[:5] *)
@@ -97,16 +116,16 @@ Definition parse_naming (c : str) : option ((str -> nat -> str) * (str -> nat ->
   end.
 
 Definition parse_op (f : str) : option op :=
-  match split_c semi_c f with
+  match splitc semi_c f with
   | [p0; p1] =>
-      match split_c comma_c p0 with
+      match splitc comma_c p0 with
       | k :: bns => if str_eqb k (s2l "ro")
-                    then Some (Reorder (names_of bns) (pairs (names_of (split_c comma_c p1))))
+                    then Some (Reorder (names_of bns) (pairs (names_of (splitc comma_c p1))))
                     else if str_eqb k (s2l "mi")
                     then match bns with
                          | nm :: lv :: sel =>
                              match parse_naming nm with
-                             | Some (fb, fr) => Some (Minc fb fr (nat_of_str lv) (names_of sel) (names_of (split_c comma_c p1)))
+                             | Some (fb, fr) => Some (Minc fb fr (nat_of_str lv) (names_of sel) (names_of (splitc comma_c p1)))
                              | None => None
                              end
                          | _ => None
@@ -115,7 +134,7 @@ Definition parse_op (f : str) : option op :=
       | [] => None
       end
   | [p0] =>
-      match split_c comma_c p0 with
+      match splitc comma_c p0 with
       | k :: args =>
           let a := names_of args in
           if str_eqb k (s2l "ar") then match a with [n] => Some (AddRock n) | _ => None end
@@ -147,10 +166,10 @@ Definition parse_cmd (f : str) : option cmd :=
   match f with
   | c1 :: c2 :: rest =>
       if ceqb c1 "x" && ceqb c2 ":" then option_map OnOther (parse_op rest)
-      else match split_c comma_c f with
+      else match splitc comma_c f with
            | [k; a] => if str_eqb k (s2l "ad") then Some (Sum (str_eqb a (s2l "1"))) else option_map OnMain (parse_op f)
            | [k; md; na; nb; ft] =>
-               if str_eqb k (s2l "em") then Some (Emb (str_eqb md (s2l "f")) (unhex na) (unhex nb) (str_eqb ft (s2l "1")))
+               if str_eqb k (s2l "em") then Some (Emb (str_eqb md (s2l "f")) (unhexn na) (unhexn nb) (str_eqb ft (s2l "1")))
                else option_map OnMain (parse_op f)
            | _ => option_map OnMain (parse_op f)
            end
@@ -193,7 +212,7 @@ Fixpoint exec (dual hash : bool) (g : grid) (o : view) (cs : list cmd) (skip : n
   end.
 
 Definition run_case (line : str) : str :=
-  match fields line with
+  match splitc tab_c line with
   | (m :: kdigits) :: fs =>
       match parse_cmds fs with
       | Some cs =>
